@@ -195,6 +195,11 @@ impl<I: TransportIdentity> Transport for Weak<InMemoryTransport<I>> {
         let (ack_tx, ack_rx) = oneshot::channel();
         let context =
             gate.map(|gate| dest.inspect_context(this.config.shard, this.config.identity, gate));
+        // verification hook (off unless the harness turns it on for a run): the bytes of a stream leave the sender as
+        // soon as they are available, as on a real network, instead of when the receiver happens to pull them
+        #[cfg(all(test, ipa_verif))]
+        let (data, context) =
+            super::verif_h5::eager(data, context, &this.config.stream_interceptor);
 
         channel
             .send((
